@@ -162,11 +162,12 @@ theorem collector_custody_ge_sum_netfees_partial (assets apps : List Nat) (collk
 /-- witness 1 (reproduced on the real chain code, first sequence of the harness run): fees 20 are paid in and recorded; a surplus
 auction of lot 2 starts (`GetAmountFromCollector`); its second-generation close takes the lot from the collector again and
 ADDS it to the record ⇒ recorded 20, custody 16; the shortfall 4 = 2·lot attains the bound of `collector_shortfall_bounded`. -/
-def witnessSurplus : List Op := [.feeVault 1 2 20, .getAmount 1 2 2, .v2SurplusClose 1 2 0 2]
+def witnessSurplus : List Op :=
+  [.config (.amap 1 2 { surplus := true, active := true }), .feeVault 1 2 20, .getAmount 1 2 2, .v2SurplusClose 1 2 0 2]
 
 /-- witness 2: fees 20; a second-generation debt auction closes with bid `c = 15` units of the OTHER asset for `d = 2` of this
 asset: 2 arrive, 15 are recorded ⇒ recorded 35, custody 22. -/
-def witnessDebt : List Op := [.feeVault 1 2 20, .v2DebtClose 1 2 15 2]
+def witnessDebt : List Op := [.config (.amap 1 2 { debt := true, active := true }), .feeVault 1 2 20, .v2DebtClose 1 2 15 2]
 
 theorem collector_custody_ge_sum_netfees_counterexample :
     ExtOk witnessSurplus ∧
@@ -177,7 +178,7 @@ theorem collector_custody_ge_sum_netfees_counterexample :
   refine ⟨?_, by decide, by decide, by decide⟩
   intro op hop
   simp [witnessSurplus] at hop
-  rcases hop with e | e | e <;> subst e <;> simp [Op.extOk]
+  rcases hop with e | e | e | e <;> subst e <;> simp [Op.extOk]
 
 theorem collector_custody_ge_sum_netfees_counterexample_debt :
     ExtOk witnessDebt ∧
@@ -186,7 +187,7 @@ theorem collector_custody_ge_sum_netfees_counterexample_debt :
   refine ⟨?_, by decide, by decide⟩
   intro op hop
   simp [witnessDebt] at hop
-  rcases hop with e | e <;> subst e <;> simp [Op.extOk]
+  rcases hop with e | e | e <;> subst e <;> simp [Op.extOk]
 
 /-- **Net fees move exactly with the coins**: on backed books (no second-generation close so far) every successful operation
 other than those two closes and a bare `DecreaseNetFeeCollectedData` changes, for every asset, the sum of the recorded net
@@ -218,7 +219,7 @@ theorem decrease_exact (s s' : State) (app asset : Nat) (x : Int) (h : step s (.
 theorem netfees_delta_exact_counterexample :
     ∃ s s', step s (.v2SurplusClose 1 2 0 2) = some s' ∧
       feeAsset 2 s'.fees - feeAsset 2 s.fees = 2 ∧ bal s' .collector 2 - bal s .collector 2 = -2 :=
-  ⟨runSkip (init [1, 2] [1] [((1, 2), {})]) [.feeVault 1 2 20, .getAmount 1 2 2],
+  ⟨runSkip (init [1, 2] [1] [((1, 2), {})]) [.config (.amap 1 2 { surplus := true, active := true }), .feeVault 1 2 20, .getAmount 1 2 2],
    runSkip (init [1, 2] [1] [((1, 2), {})]) witnessSurplus, by decide, by decide, by decide⟩
 
 /-- After the small repair proposed in notes/C13.md the two closes are exact like every other operation: the invariants are
@@ -232,7 +233,7 @@ theorem repaired_debt_close_exact {D : Nat → Int} (s s' : State) (app asset : 
   repairedDebtClose_inv hL hC h
 
 /-- on the surplus witness the repaired close leaves record and custody equal (18 = 18) -/
-example : ((stepRepaired (runSkip (init [1, 2] [1] [((1, 2), {})]) [.feeVault 1 2 20, .getAmount 1 2 2]) (.v2SurplusClose 1 2 0 2)).map
+example : ((stepRepaired (runSkip (init [1, 2] [1] [((1, 2), {})]) [.config (.amap 1 2 { surplus := true, active := true }), .feeVault 1 2 20, .getAmount 1 2 2]) (.v2SurplusClose 1 2 0 2)).map
     fun s => (feeAsset 2 s.fees, bal s .collector 2, bal s (.user 0) 2)) = some (18, 18, 2) := by decide
 
 /-! ## the savings reward, computed inside the model
@@ -431,6 +432,110 @@ example : fee (runSkipT (init [2] [1] [((1, 2), cl10)]) demoT) (1, 2) = 10000000
 /-- a second year would accrue 44 000 000 > 10 000 000 recorded: the withdrawal is rejected as a whole -/
 example : stepT (runSkipT (init [2] [1] [((1, 2), cl10)]) demoT) ⟨1000 + 2 * 31557600, 20⟩ (.withdraw 7 1 2 1 5 pow11) = none := by
   decide +kernel
+
+/-! ## when surplus and debt auctions start (collector lookup thresholds against the recorded net fees) -/
+
+/-- **A surplus auction starts only above the threshold and takes exactly the lot.** Whenever the begin-block start decision of
+either generation changes anything for a surplus entry, `netFees ≥ surplusThreshold + lotSize` held, the record and the collector's
+custody both dropped by exactly `lotSize`, and the lot sits in the first-generation auction account. -/
+theorem surplus_start_only_above_threshold (s : State) (gen2 : Bool) (k : Nat × Nat) (m : AMap)
+    (hm : Store.get s.amap k = some m) (hs : m.surplus = true) (hd : m.debt = false)
+    (hch : (activateOne s gen2 k).1 ≠ s) :
+    ∃ c, Store.get s.collk k = some c ∧ c.surplusThr + c.lot ≤ fee s k ∧ m.active = false ∧
+      fee (activateOne s gen2 k).1 k = fee s k - c.lot ∧
+      bal (activateOne s gen2 k).1 .collector k.2 = bal s .collector k.2 - c.lot ∧
+      bal (activateOne s gen2 k).1 .auction k.2 = bal s .auction k.2 + c.lot := by
+  rcases activateOne_spec s gen2 k with h | ⟨m', c, hm', hc, hact, _, _, h⟩
+  · exact absurd h hch
+  · rw [hm] at hm'; cases hm'
+    rcases h with ⟨hdebt, _⟩ | ⟨_, hthr, s1, hg, hres⟩
+    · rw [hd] at hdebt; cases hdebt
+    · obtain ⟨_, _, e1, e2, e3, _⟩ := getAmount_exact hg
+      refine ⟨c, hc, hthr, hact, ?_⟩
+      rcases hres with hres | ⟨_, _, hres⟩
+      · rw [hres]; exact ⟨e1, e2, e3⟩
+      · rw [hres]; exact ⟨e1, e2, e3⟩
+
+/-- **A debt auction starts only at or below `debtThreshold − lotSize`** (hence below the debt threshold for a non-negative lot), and
+starting it moves nothing: only the active flag is raised. -/
+theorem debt_start_only_below_threshold (s : State) (gen2 : Bool) (k : Nat × Nat) (m : AMap)
+    (hm : Store.get s.amap k = some m) (hd : m.debt = true) (hs : m.surplus = false)
+    (hch : (activateOne s gen2 k).1 ≠ s) :
+    ∃ c, Store.get s.collk k = some c ∧ fee s k ≤ c.debtThr - c.lot ∧ (0 ≤ c.lot → fee s k ≤ c.debtThr) ∧
+      (activateOne s gen2 k).1 = setActive s k m ∧
+      (activateOne s gen2 k).1.fees = s.fees ∧ (activateOne s gen2 k).1.bank = s.bank := by
+  rcases activateOne_spec s gen2 k with h | ⟨m', c, hm', hc, _, _, _, h⟩
+  · exact absurd h hch
+  · rw [hm] at hm'; cases hm'
+    rcases h with ⟨_, hthr, hres⟩ | ⟨hsur, _⟩
+    · exact ⟨c, hc, hthr, fun h0 => by omega, hres, by rw [hres]; rfl, by rw [hres]; rfl⟩
+    · rw [hs] at hsur; cases hsur
+
+/-- **Switched off ⇒ no start**: with the kill switch on (either generation) or after an emergency shutdown (first generation)
+the start decision changes nothing; an entry whose auction is already active is left alone as well. -/
+theorem no_start_when_switched_off (s : State) (gen2 : Bool) (k : Nat × Nat)
+    (h : k.1 ∈ s.killOn ∨ (gen2 = false ∧ k.1 ∈ s.esmOn) ∨ ∃ m, Store.get s.amap k = some m ∧ m.active = true) :
+    activateOne s gen2 k = (s, false) := by
+  unfold activateOne
+  split
+  · rfl
+  · rename_i m hm
+    have : (m.active || decide (k.1 ∈ s.killOn) || (!gen2 && decide (k.1 ∈ s.esmOn))) = true := by
+      rcases h with h | ⟨h1, h2⟩ | ⟨m', hm', ha⟩
+      · simp [h]
+      · simp [h1, h2]
+      · rw [hm] at hm'; cases hm'; simp [ha]
+    simp [this]
+
+/-- a whole begin-block sweep keeps every invariant and is delta-exact (it only ever calls `GetAmountFromCollector`) -/
+theorem activation_sweep_keeps_books {D : Nat → Int} (s : State) (gen2 : Bool) (keys : List (Nat × Nat)) (hL : LInv s) (hC : CInvD D s) :
+    LInv (activate s gen2 keys) ∧ CInvD D (activate s gen2 keys) ∧ Delta s (activate s gen2 keys) :=
+  activate_inv gen2 keys hL hC
+
+/-- books of 12 000 000 with surplus threshold 10 000 000 and lot 2 000 000: exactly at the boundary the auction starts … -/
+def actDemo (fees : Int) (eng : Bool) : State :=
+  runSkip (init [2, 3] [1] [((1, 2), { surplusThr := 10000000, debtThr := 5000000, lot := 2000000, debtLot := 1 })])
+    [.penalty 1 2 fees, .config (.amap 1 2 { surplus := true }), .config (.english 1 eng)]
+example : fee (activate (actDemo 12000000 true) true [(1, 2)]) (1, 2) = 10000000 := by decide
+example : Store.get (activate (actDemo 12000000 true) false [(1, 2)]).amap (1, 2) = some { surplus := true, active := true } := by decide
+/-- … one unit below it does not … -/
+example : activate (actDemo 11999999 true) true [(1, 2)] = actDemo 11999999 true := by decide
+example : activate (actDemo 11999999 true) false [(1, 2)] = actDemo 11999999 true := by decide
+/-- … and in the second generation, when English auctions are not activated for the app, the lot leaves the collector although no
+auction exists and the entry stays inactive, so the next block takes the next lot (the begin-blocker is not atomic; C15). -/
+example : fee (activate (activate (actDemo 14000000 false) true [(1, 2)]) true [(1, 2)]) (1, 2) = 10000000 ∧
+    Store.get (activate (activate (actDemo 14000000 false) true [(1, 2)]) true [(1, 2)]).amap (1, 2) = some { surplus := true } ∧
+    bal (activate (activate (actDemo 14000000 false) true [(1, 2)]) true [(1, 2)]) .auction 2 = 4000000 := by decide
+
+/-! ## emergency shutdown and kill switch: the first guards of the locker messages -/
+
+/-- **Guard on ⇒ rejected, nothing changes**: after an emergency shutdown of the app, or with its kill switch on, creating a locker,
+depositing into one and whitelisting an asset are rejected (`none`: the books are untouched), with or without the reward computed
+in the model, for every state and every argument. -/
+theorem shutdown_blocks_create_deposit_whitelist (s : State) (app : Nat) (h : app ∈ s.esmOn ∨ app ∈ s.killOn)
+    (u asset id : Nat) (amt : Int) (rw : Rw) (ctx : Ctx) (pw : Option Int) :
+    step s (.create u app asset amt) = none ∧ step s (.deposit u app asset id amt rw) = none ∧
+    step s (.whitelist app asset) = none ∧
+    stepT s ctx (.create u app asset amt) = none ∧ stepT s ctx (.deposit u app asset id amt pw) = none := by
+  have hc : step s (.create u app asset amt) = none := by
+    simp only [step]; rcases h with h | h <;> simp [h]
+  have hd : ∀ rw, step s (.deposit u app asset id amt rw) = none := by
+    intro rw; simp only [step]; rcases h with h | h <;> simp [h]
+  have hw : step s (.whitelist app asset) = none := by
+    simp only [step]; rcases h with h | h <;> simp [h]
+  refine ⟨hc, hd rw, hw, ?_, ?_⟩
+  · simp [stepT, hc]
+  · simp [stepT, hd]
+
+/-- a rejected message leaves the history's state unchanged -/
+theorem rejected_is_noop (s : State) (op : Op) (ops : List Op) (h : step s op = none) : runSkip s (op :: ops) = runSkip s ops := by
+  simp [runSkip, h]
+
+/-- withdraw and close carry NO such guard (msg_server.go:218-371): savers can leave after a shutdown -/
+example :
+    let s := runSkip (init [2] [1] [((1, 2), {})]) [.fund 7 2 1000, .whitelist 1 2, .create 7 1 2 400, .config (.esm 1 true), .config (.kill 1 true)]
+    step s (.deposit 7 1 2 1 5 .none) = none ∧ (step s (.withdraw 7 1 2 1 100 .none)).isSome = true ∧
+    (step s (.close 7 1 2 1 .none)).isSome = true := by decide
 
 /-! ## non-vacuity: concrete histories on which the hypotheses hold and the interesting branches fire -/
 
